@@ -1,0 +1,58 @@
+//go:build verif
+// +build verif
+
+package config
+
+import (
+	"context"
+
+	"github.com/samaritan-proxy/samaritan/pb/config/service"
+)
+
+// This file only exists with the `verif` build tag. It exposes unexported
+// pieces of the package to the external verification harness.
+
+// VerifDependencyUpdate calls the hook which handles dependency updates.
+func (c *Config) VerifDependencyUpdate(added, removed []*service.Service) {
+	c.handleDependencyUpdate(added, removed)
+}
+
+// VerifSvcConfigUpdate calls the hook which handles service config updates.
+func (c *Config) VerifSvcConfigUpdate(svcName string, newCfg *service.Config) {
+	c.handleSvcConfigUpdate(svcName, newCfg)
+}
+
+// VerifSvcEndpointUpdate calls the hook which handles service endpoint updates.
+func (c *Config) VerifSvcEndpointUpdate(svcName string, added, removed []*service.Endpoint) {
+	c.handleSvcEndpointUpdate(svcName, added, removed)
+}
+
+// VerifStream is svcDiscoveryStream.
+type VerifStream interface {
+	Send(subscribed, unsubscribed []string) error
+	Recv() error
+}
+
+// VerifSvcDiscoveryClient wraps svcDiscoveryClient.
+type VerifSvcDiscoveryClient struct{ c *svcDiscoveryClient }
+
+// VerifNewSvcDiscoveryClient creates a service discovery client with given stream maker.
+func VerifNewSvcDiscoveryClient(scope string, maker func(ctx context.Context) (VerifStream, error)) *VerifSvcDiscoveryClient {
+	c := newSvcDiscoveryClient(scope, func(ctx context.Context) (svcDiscoveryStream, error) {
+		s, err := maker(ctx)
+		if err != nil {
+			return nil, err
+		}
+		return s, nil
+	})
+	return &VerifSvcDiscoveryClient{c: c}
+}
+
+// Subscribe subscribes the service.
+func (c *VerifSvcDiscoveryClient) Subscribe(svcName string) { c.c.Subscribe(svcName) }
+
+// Unsubscribe unsubscribes the service.
+func (c *VerifSvcDiscoveryClient) Unsubscribe(svcName string) { c.c.Unsubscribe(svcName) }
+
+// Run runs the client until ctx is done.
+func (c *VerifSvcDiscoveryClient) Run(ctx context.Context) { c.c.Run(ctx) }
